@@ -69,6 +69,8 @@ SHAPES = {s["name"]: s for s in [
     S("port-8080", port=8080),
     S("x-differs", query=(("x", "2"), ("y", "2"))),
     S("post-empty", method="POST"),
+    S("repeat-12", query=(("x", "1"), ("y", "2"), ("y", "3"))),             # repeated parameter: later values belong to the key
+    S("repeat-13", query=(("x", "1"), ("y", "2"), ("y", "4"))),
 ]}
 
 TOGGLES = {
